@@ -1,5 +1,7 @@
 (* C03 model driver: replays the implementation's scheduler trace on the extracted sleep/wake
-   models (trace acceptance) and prints the model's own summary line.  The acceptor is the one
+   models (trace acceptance) and prints the model's own summary line.  Scenario -> model:
+   chanf/chanm with writer lock mutex|single -> (a)/(b) fstep/mstep; with spin|sync, and chanb (busy reader,
+   any writer lock) -> (g) kstep (C03/ModelK.v); ring -> gstep (busy-loop readers: bstep, C03/ModelRB.v); abq -> qstep; dbuf / dbufn (non-blocking) -> dstep; slock -> C04 lstep.  The acceptor is the one
    of ocaml/vsacc.ml.inc extended with the harness line "W <tid> cvspur" (spurious condition-
    variable wake-up), which is the model step (tid, choice 1) with label cvwoke a=1.
    With a line "explore <seed> <runs> <window>" instead of TRACE the driver explores the MODEL and
@@ -97,6 +99,26 @@ type packed = Pk : ('s -> nat -> nat -> ('s * label) option) * 's * int * (strin
 
 let build (scen : string list) : packed option =
   match scen with
+  | ("chanf" | "chanm" | "chanb" as kind) :: cap :: ("single" | "mutex" | "spin" | "sync" as wl) :: rest
+    when kind = "chanb" || wl = "spin" || wl = "sync" ->
+    (* model (g), C03/ModelK.v: every writer-lock kind x every reader mode; used for the lock-word writer
+       locks and for the busy reader (WRITE_MUTEX / WRITE_SINGLE with a sleeping reader stay on (a) / (b)) *)
+    let (r, w) = split_rw rest in
+    let n = 1 + List.length w and capz = z_of_int (next_pow2 (int_of_string cap) 1) in
+    let rm = (match kind with "chanf" -> KRSync | "chanm" -> KRMutex | _ -> KRBusy) in
+    let lk = (match wl with "single" -> KLSingle | "mutex" -> KLMutex | "spin" -> KLSpin | _ -> KLSync) in
+    let st0 = kinit (nat_of_int n) capz rm lk (nat_of_int (nth_or0 r 0)) (fun i -> nat_of_int (nth_or0 w (int_of_nat i))) in
+    Some (Pk (kstep, st0, n,
+              (function "wcur" -> 0 | "rcur" -> 1 | "wl" | "wm" -> 2 | "rm" -> 3 | "rcv" -> 4 | "-" -> 0 | _ -> 99),
+              (fun s t -> (k_thr s (nat_of_int t)).k_pc = KDone),
+              (fun s -> Printf.sprintf "wcur=%s rcur=%s" (string_of_z (k_wcur s)) (string_of_z (k_rcur s))),
+              (fun s t -> let x = k_thr s (nat_of_int t) in
+                 match x.k_pc with
+                 | KRLoad -> "rload" | KRChk | KMChk | KWFail -> "rchk" | KRWait | KMWait | KWLWait -> "rwait"
+                 | KRBlocked | KMAsleep | KWLBlocked -> "rblocked" | KMWoken -> "rwoken"
+                 | KWStore | KWRmChk -> if int_of_nat x.k_k = 1 then "wstore1" else "wstore"
+                 | KWRmUnlock | KWRet | KWRel | KWRelSeg | KWLWake | KWOut | KWWake -> "wpending"
+                 | KDone -> "done" | _ -> "other")))
   | "chanf" :: cap :: wl :: rest ->
     let (r, w) = split_rw rest in
     let n = 1 + List.length w and capz = z_of_int (next_pow2 (int_of_string cap) 1) in
@@ -119,6 +141,21 @@ let build (scen : string list) : packed option =
               (fun s t -> match (m_thr s (nat_of_int t)).m_pc with
                  | MRChk -> "rchk" | MRWait -> "rwait" | MRAsleep -> "rblocked" | MRWoken -> "rwoken"
                  | MWChk -> "wstore" | MWUnlockR | MWSeg2 | MWUnlockW | MWSeg3 | MWSig -> "wpending" | MDone -> "done" | _ -> "other")))
+  | "ring" :: "busy" :: cap :: wl :: rest ->
+    (* busy-loop readers: model (h), C03/ModelRB.v *)
+    let (r, w) = split_rw rest in
+    let nr = List.length r in
+    let n = nr + List.length w and capz = z_of_int (next_pow2 (int_of_string cap) 1) in
+    let ks i = let i = int_of_nat i in nat_of_int (if i < nr then nth_or0 r i else nth_or0 w (i - nr)) in
+    let st0 = binit (nat_of_int n) (nat_of_int nr) capz (wl <> "single") ks in
+    Some (Pk (bstep, st0, n,
+              (function "cursor" -> 0 | "spin" -> 1 | "-" -> 0 | _ -> 99),
+              (fun s t -> (b_thr s (nat_of_int t)).b_pc = BDone),
+              (fun s -> Printf.sprintf "cursor=%s" (string_of_z (b_cursor s))),
+              (fun s t -> match (b_thr s (nat_of_int t)).b_pc with
+                 | BRLoad -> "rload" | BRChk -> "rchk"
+                 | BWStore -> if int_of_nat (b_thr s (nat_of_int t)).b_k = 1 then "wstore1" else "wstore"
+                 | BWSeg2 | BWClear -> "wpending" | BDone -> "done" | _ -> "other")))
   | "ring" :: md :: cap :: wl :: rest ->
     let (r, w) = split_rw rest in
     let nr = List.length r in
@@ -146,12 +183,12 @@ let build (scen : string list) : packed option =
               (fun s t -> match (q_thr s (nat_of_int t)).q_pc with
                  | QPChk | QCChk -> "rchk" | QPWait | QCWait -> "rwait" | QPAsleep | QCAsleep -> "rblocked"
                  | QPSig | QCSig -> "wpending" | QDone -> "done" | _ -> "other")))
-  | "dbuf" :: cap :: rest ->
+  | ("dbuf" | "dbufn" as md) :: cap :: rest ->
     let (r, w) = split_rw rest in
     let n = 1 + List.length w in
-    let st0 = dinit (nat_of_int n) (z_of_int (int_of_string cap)) (nat_of_int (nth_or0 r 0)) (fun i -> nat_of_int (nth_or0 w (int_of_nat i))) in
+    let st0 = dinit (nat_of_int n) (z_of_int (int_of_string cap)) (md = "dbufn") (nat_of_int (nth_or0 r 0)) (fun i -> nat_of_int (nth_or0 w (int_of_nat i))) in
     Some (Pk (dstep, st0, n,
-              (function "m" -> 0 | "ne" -> 1 | "nf" -> 2 | _ -> 99),
+              (function "m" -> 0 | "ne" -> 1 | "nf" -> 2 | "-" -> 0 | _ -> 99),
               (fun s t -> (d_thr s (nat_of_int t)).d_pc = DDone),
               (fun s -> Printf.sprintf "back=%s" (string_of_z (d_back s))),
               (fun s t -> match (d_thr s (nat_of_int t)).d_pc with
@@ -175,7 +212,118 @@ let build (scen : string list) : packed option =
    run the other threads up to [window] steps (so that the state change and the wake-up call fall
    into that window) before letting the sleeper continue.  Printed: the thread list of every
    executed step (one entry per model step = one scheduling decision of the harness). *)
-let explore (Pk (step, st0, n, _, is_done, _, cls)) seed runs window =
+(* Backlog schedules (window = 100 + T, channel scenarios: thread 0 is the consumer, cell 0 the write
+   cursor, cell 1 the read cursor): the producers run alone until T messages are published and unread;
+   a producer is then parked right after its load of the read cursor (it now holds a copy that says
+   "backlog >= T"); everybody else runs until nobody can move -- the consumer drains the whole backlog and
+   goes to sleep inside the producer's load-to-wake window; then the parked producer publishes and must
+   wake it.  A writer that decides from its stale copy that the consumer cannot be asleep is caught here. *)
+let explore_backlog (Pk (step, st0, n, _, _, _, cls)) seed runs threshold =
+  Random.init seed;
+  for _r = 1 to runs do
+    let st = ref st0 and sched = ref [] and k = ref 0 in
+    let published = ref 0 and consumed = ref 0 in
+    let enabled s t = step s (nat_of_int t) O <> None in
+    let run1 t =
+      (match step !st (nat_of_int t) O with
+       | Some (s', LExit) -> st := s'
+       | Some (s', LEv e) ->
+         if e.e_op = OStore && int_of_nat e.e_cell = 0 then incr published;
+         if e.e_op = OStore && int_of_nat e.e_cell = 1 then incr consumed;
+         st := s'; sched := t :: !sched
+       | Some (s', _) -> st := s'; sched := t :: !sched
+       | None -> ()) in
+    let pick l = List.nth l (Random.int (List.length l)) in
+    let victim = ref (-1) and phase = ref 0 and stop = ref false in
+    while not !stop && !k < 6000 do
+      incr k;
+      let en = List.filter (enabled !st) (upto n) in
+      if en = [] then stop := true else begin
+        let prods = List.filter (fun t -> t <> 0) en in
+        (match !phase with
+         | 0 ->
+           (* build the backlog; the consumer gets an occasional step so that it is somewhere in its loop *)
+           if !published - !consumed >= threshold || prods = [] then phase := 1
+           else run1 (if Random.int 12 = 0 then pick en else pick prods)
+         | 1 ->
+           let at_store = List.filter (fun t -> let c = cls !st t in c = "wstore" || c = "wstore1") prods in
+           if at_store <> [] then (victim := pick at_store; phase := 2)
+           else if prods = [] then phase := 3
+           else run1 (pick prods)
+         | 2 ->
+           let others = List.filter (fun t -> t <> !victim) en in
+           if others = [] then phase := 3 else run1 (pick others)
+         | _ -> run1 (pick en))
+      end
+    done;
+    Printf.printf "modelsched - %s\n" (String.concat " " (List.rev_map string_of_int !sched))
+  done
+
+(* Throttled schedules for WRAPPING rings (window = 200; ring scenarios whose writers write more
+   messages than the ring has slots): the ring has no back-pressure, the documented usage is that
+   writers never lap a reader.  The schedule plays the client's throttle: a writer may BEGIN its next
+   write only while (messages written + writes in flight) - (progress of the slowest unfinished reader;
+   read-once: messages consumed by all readers together) <= capacity - 2, so that the cursor never
+   comes round to a reader's position and no unread slot is overwritten.  Everything else is a
+   random walk with short bursts; readers do run dry and go to sleep, and are woken. *)
+let explore_throttled (Pk (step, st0, n, _, _, _, _)) seed runs nr cap once =
+  Random.init seed;
+  for _r = 1 to runs do
+    let st = ref st0 and sched = ref [] and k = ref 0 in
+    let written = ref 0 in
+    let reads = Array.make n 0 and fin = Array.make n false in
+    let idle = Array.make n true and stored = Array.make n false in
+    let enabled s t = step s (nat_of_int t) O <> None in
+    let minprog () =
+      if once then Some (Array.fold_left (+) 0 reads)
+      else begin
+        let m = ref None in
+        for t = 0 to nr - 1 do
+          if not fin.(t) then m := (match !m with None -> Some reads.(t) | Some v -> Some (min v reads.(t)))
+        done; !m
+      end in
+    let inflight () = let c = ref 0 in for t = nr to n - 1 do if (not idle.(t)) && not stored.(t) then incr c done; !c in
+    let allowed t =
+      if t < nr || not idle.(t) then true
+      else (match minprog () with None -> true | Some p -> !written + inflight () - p <= cap - 2) in
+    let run1 t =
+      (match step !st (nat_of_int t) O with
+       | Some (s', lab) ->
+         (match lab with
+          | LExit -> fin.(t) <- true
+          | LEv e ->
+            sched := t :: !sched;
+            if t >= nr then begin
+              idle.(t) <- false;
+              if e.e_op = OStore && int_of_nat e.e_cell = 0 then (incr written; stored.(t) <- true);
+              if e.e_op = OFwake then (idle.(t) <- true; stored.(t) <- false);
+              (* busy-loop rings have no wake call: the iteration ends with the clear (lock) / the store (single) *)
+              if e.e_op = OClear then (idle.(t) <- true; stored.(t) <- false)
+            end
+          | LPlain ns ->
+            sched := t :: !sched;
+            if t >= nr then idle.(t) <- (idle.(t) && true);
+            List.iter (fun (c, _) -> if int_of_nat c = 10 then reads.(t) <- reads.(t) + 1) ns);
+         st := s'
+       | None -> ()) in
+    let stop = ref false and cur = ref (-1) and burst = ref 0 in
+    while not !stop && !k < 8000 do
+      incr k;
+      let en = List.filter (fun t -> enabled !st t && allowed t) (upto n) in
+      if en = [] then stop := true else begin
+        if !burst > 0 && List.mem !cur en then decr burst
+        else (cur := List.nth en (Random.int (List.length en)); burst := Random.int 6);
+        run1 !cur
+      end
+    done;
+    (* only complete runs are used: once the list is exhausted the harness falls back to round robin, which
+       does not throttle *)
+    if List.for_all (fun t -> not (enabled !st t)) (upto n) && Array.for_all (fun b -> b) (Array.init n (fun t -> fin.(t))) then
+      Printf.printf "modelsched - %s\n" (String.concat " " (List.rev_map string_of_int !sched))
+  done
+
+let explore (Pk (step, st0, n, _, is_done, _, cls) as pk0) seed runs window =
+  if window >= 100 then explore_backlog pk0 seed runs (window - 100) else begin
   Random.init seed;
   for _r = 1 to runs do
     let st = ref st0 and sched = ref [] and k = ref 0 and parked = ref (-1) and left = ref 0 in
@@ -248,6 +396,35 @@ let explore (Pk (step, st0, n, _, is_done, _, cls)) seed runs window =
     Printf.printf "modelsched %s %s\n" (if !ftok = [] then "-" else String.concat "," (List.rev !ftok))
       (String.concat " " (List.rev_map string_of_int !sched))
   done
+  end
+
+(* kfutex: the real-kernel run of sync_obj_futex.c against the semantics the scheduler and the models
+   implement (C03/Futex.v: sched_wait = compare-and-block, sched_wake_one, sched_wake_all); only counts are
+   printed (which sleeper a wake picks is the kernel's choice).  A run the harness could not observe
+   ("K inconclusive ...") is echoed: it is a harness error, not a divergence. *)
+let kfutex_model (toks : string list) (impl : string list) : unit =
+  if List.exists (fun l -> String.length l >= 14 && String.sub l 0 14 = "K inconclusive") impl then
+    List.iter print_endline impl
+  else begin
+    let word = ref 0 and asleep = ref (nat_of_int 0) in
+    let num s = int_of_string (String.sub s 1 (String.length s - 1)) in
+    List.iter (fun tk ->
+      if tk = "w1" || tk = "wa" then begin
+        let (a', woke) = if tk = "w1" then sched_wake_one !asleep else sched_wake_all !asleep in
+        asleep := a';
+        Printf.printf "K %s woke=%d resumed=%d\n" tk (int_of_nat woke) (int_of_nat woke)
+      end else if tk <> "" && tk.[0] = 's' then begin
+        let v = num tk in
+        let (a', blocked) = sched_wait !asleep (z_of_int !word) (z_of_int v) in
+        asleep := a';
+        if blocked then Printf.printf "K s val=%d word=%d asleep\n" v !word
+        else Printf.printf "K s val=%d word=%d returned rc=-1 errno=11\n" v !word
+      end else if tk <> "" && tk.[0] = 'v' then begin
+        word := num tk; Printf.printf "K v word=%d\n" !word
+      end) toks;
+    Printf.printf "K end asleep=%d\n" (int_of_nat !asleep);
+    print_endline "F status=0 kfutex"
+  end
 
 let handle (lines : string list) : unit =
   let rec split acc = function
@@ -255,15 +432,24 @@ let handle (lines : string list) : unit =
     | x :: rest -> split (x :: acc) rest
     | [] -> (List.rev acc, []) in
   let (cfg, trace) = split [] lines in
+  match List.filter (fun l -> match words l with "kfutex" :: _ -> true | _ -> false) cfg with
+  | l :: _ -> kfutex_model (List.tl (words l)) trace
+  | [] ->
   let scen = ref [] and expl = ref None in
   List.iter (fun l -> match words l with
-    | ("chanf" | "chanm" | "ring" | "abq" | "dbuf" | "slock") :: _ as w -> scen := w
+    | ("chanf" | "chanm" | "chanb" | "ring" | "abq" | "dbuf" | "dbufn" | "slock") :: _ as w -> scen := w
     | ["explore"; sd; runs; win] -> expl := Some (int_of_string sd, int_of_string runs, int_of_string win)
     | _ -> ()) cfg;
   match build !scen with
   | None -> print_endline "F badcase"
   | Some (Pk (step, st0, n, cell_id, is_done, summary, _) as pk) ->
     match !expl with
+    | Some (sd, runs, win) when win = 200 && (match !scen with "ring" :: _ -> true | _ -> false) ->
+      (match !scen with
+       | "ring" :: md :: cap :: _ :: rest ->
+         let (r, _) = split_rw rest in
+         explore_throttled pk sd runs (List.length r) (next_pow2 (int_of_string cap) 1) (md = "once")
+       | _ -> ())
     | Some (sd, runs, win) -> explore pk sd runs win
     | None ->
       let none_enabled st = List.for_all (fun t -> step st (nat_of_int t) O = None) (upto n) in
